@@ -26,7 +26,8 @@ THEOREM_NOTES = ("coq/Props/C12.v, all for ARBITRARY view functions (sampled poi
                  "_reachable and C12_container_read_equals_fresh [G under the side condition ObjR.safe = no edit of a geometry behind the back of "
                  "another container with a filled cache]; C12_deepcopy_independent and C12_ids_disjoint_reachable [G, provenance ids of the "
                  "definition slots]; C12_pinned_reverse_refuted and C12_container_alias_refuted (witnesses on the executable instance). "
-                 "Not covered by a theorem: the container's vertices/faces cache (only correspondence + oracle)")
+                 "Round 2 (Proofs/ObjTessR.v): the container's vertices/faces aggregates obey the same invariant - after any safe history the read equals the "
+                 "concatenation of the freshly tessellated elements with prefix-sum face offsets")
 LEVEL_TEXT = ("Coq theorems [G] about the Gallina state-machine model Model/Obj.v of the repaired cache discipline, for arbitrary view functions "
               "(sampled points, bounding box, tessellation are Section variables): every cache of every geometry is empty or equals its view of "
               "the current definition after ANY list of operations (geometry edits, container operations, deep copies); every getter returns what "
